@@ -372,7 +372,7 @@ def nullable(n, rules=None, assume=None):
     `rules`: name -> bool (already computed nullability of rules); unknown refs and
     parameters count as nullable."""
     k = n[0]
-    if k not in _LEAF_KINDS and uses_backtrack(n):
+    if k not in _LEAF_KINDS and uses_backtrack(n, rules):
         return True   # net progress unknown once something looks behind
     if k == 'lit':
         return len(n[1]) == 0
@@ -424,16 +424,27 @@ def rule_nullability(g):
         for r in g.rules:
             if r[0] == 'rule':
                 v = nullable(r[3], res)
+                bt = uses_backtrack(r[3], res)
             else:
                 v = all(nullable(m[2], res) for m in r[3] if m[0] != 'requires')
-            if v and not res[r[1]]:
+                bt = any(uses_backtrack(m[2], res) for m in r[3] if m[0] != 'requires')
+            if bt and res[r[1]] != 'BT':
+                res[r[1]] = 'BT'
+                changed = True
+            elif v and not res[r[1]]:
                 res[r[1]] = True
                 changed = True
     return res
 
 
-def uses_backtrack(n):
-    return any(x[0] == 'backtrack' for x in walk(n))
+def uses_backtrack(n, rules=None):
+    """Does n look behind - directly, or through a rule marked 'BT' in `rules`?"""
+    for x in walk(n):
+        if x[0] == 'backtrack':
+            return True
+        if rules is not None and x[0] in ('ref', 'call') and rules.get(x[1]) == 'BT':
+            return True
+    return False
 
 
 # --------------------------------------------------------------- reference interpreter
